@@ -1,30 +1,10 @@
 /-
-Glue lemmas about `checkRow` / `checkRows` (no arithmetic content): composing per-row kernel
-checks into block and table checks, and reading one entry back out of a table check.
+Lemmas about `checkRow` / `checkRows` (no arithmetic content): reading one entry back out of a
+passed table check (the composition lemmas used by the generated modules are in `CheckGlue.lean`).
 -/
-import CompmechVerif.Bardell.Check
+import CompmechVerif.Bardell.CheckGlue
 
 namespace Compmech.C10
-
-theorem checkRows_nil_true (tn td : Nat) (W : Nat → List (Terms × Nat)) (i : Nat) :
-    checkRows tn td W i [] = true := rfl
-
-theorem checkRows_cons_true {tn td : Nat} {W : Nat → List (Terms × Nat)} {i : Nat} {r : List E}
-    {rs : List (List E)} (h : checkRow tn td r (W i) = true) (hs : checkRows tn td W (i + 1) rs = true) :
-    checkRows tn td W i (r :: rs) = true := by
-  simp [checkRows, h, hs]
-
-theorem checkRows_append_true {tn td : Nat} {W : Nat → List (Terms × Nat)} :
-    ∀ {i : Nat} {a b : List (List E)}, checkRows tn td W i a = true →
-      checkRows tn td W (i + a.length) b = true → checkRows tn td W i (a ++ b) = true
-  | i, [], b, _, hb => by simpa using hb
-  | i, r :: a, b, ha, hb => by
-    simp only [checkRows, Bool.and_eq_true] at ha
-    have hb' : checkRows tn td W (i + 1 + a.length) b = true := by
-      have : i + (r :: a).length = i + 1 + a.length := by simp [List.length_cons]; omega
-      rw [this] at hb; exact hb
-    have := checkRows_append_true (i := i + 1) ha.2 hb'
-    simp [checkRows, ha.1, this]
 
 /-- a passed table check gives a passed row check for every row -/
 theorem checkRows_get {tn td : Nat} {W : Nat → List (Terms × Nat)} :
@@ -71,5 +51,82 @@ theorem mapIdx_get {α β : Type} (f : Nat → α → β) :
       have := mapIdx_get f (j0 + 1) l k (by simpa using h) (by simpa [mapIdx] using h')
       simp only [mapIdx, List.getElem_cons_succ]
       rw [this]; congr 1; omega
+
+end Compmech.C10
+
+namespace Compmech.C10
+
+/-- entry `(i, j)` of a table given as a list of rows (`lit 0 0` outside) -/
+def entry (t : List (List E)) (i j : Nat) : E := (t.getD i []).getD j (.lit 0 0)
+
+theorem entry_eq {t : List (List E)} {i j : Nat} (hi : i < t.length) (hj : j < t[i].length) :
+    entry t i j = t[i][j] := by
+  simp [entry, List.getD, List.getElem?_eq_getElem hi, List.getElem?_eq_getElem hj]
+
+/-- reading one entry out of a passed table check -/
+theorem checkRows_entry {tn td : Nat} {W : Nat → List (Terms × Nat)} {rows : List (List E)}
+    (h : checkRows tn td W 0 rows = true) {i j : Nat} (hi : i < rows.length) (hj : j < (W i).length) :
+    checkE tn td (entry rows i j) (W i)[j].1 (W i)[j].2 = true := by
+  have hr := checkRows_get h i hi
+  rw [Nat.zero_add] at hr
+  obtain ⟨hl, hg⟩ := checkRow_get hr
+  have hj' : j < rows[i].length := by rw [hl]; exact hj
+  rw [entry_eq hi hj']
+  exact hg j hj' hj
+
+theorem dbasisTab_length (d : Nat) : (dbasisTab d).length = NB := by simp [dbasisTab]
+
+theorem dbasisTab_get (d j : Nat) (h : j < (dbasisTab d).length) : (dbasisTab d)[j] = dbasis d j := by
+  simp [dbasisTab]
+
+theorem fullWantRow_length (d1 d2 i : Nat) : (fullWantRow d1 d2 i).length = NB := by
+  simp [fullWantRow, mapIdx_length, dbasisTab_length]
+
+theorem fullWantRow_get (d1 d2 i j : Nat) (h : j < (fullWantRow d1 d2 i).length) :
+    (fullWantRow d1 d2 i)[j] =
+      (fullWant (flagKey2 i j) (dbasis d1 i).num (dbasis d2 j).num, (dbasis d1 i).den * (dbasis d2 j).den * intL) := by
+  have hj : j < (dbasisTab d2).length := by simpa [fullWantRow, mapIdx_length] using h
+  simp only [fullWantRow]
+  rw [mapIdx_get _ 0 _ j hj, dbasisTab_get, Nat.zero_add]
+
+theorem subWantRow_length (d1 d2 i : Nat) : (subWantRow d1 d2 i).length = NB := by
+  simp [subWantRow, mapIdx_length, dbasisTab_length]
+
+theorem subWantRow_get (d1 d2 i j : Nat) (h : j < (subWantRow d1 d2 i).length) :
+    (subWantRow d1 d2 i)[j] =
+      (subWant (flagKey2 i j) (toTerms (dbasis d1 i).num) (toTerms (dbasis d2 j).num),
+        (dbasis d1 i).den * (dbasis d2 j).den * intL) := by
+  have hj : j < (dbasisTab d2).length := by simpa [subWantRow, mapIdx_length] using h
+  simp only [subWantRow]
+  rw [mapIdx_get _ 0 _ j hj, dbasisTab_get, Nat.zero_add]
+
+theorem mapWantRow_length (d1 d2 i : Nat) : (mapWantRow d1 d2 i).length = NB := by
+  simp [mapWantRow, mapIdx_length, dbasisTab_length]
+
+theorem mapWantRow_get (d1 d2 i j : Nat) (h : j < (mapWantRow d1 d2 i).length) :
+    (mapWantRow d1 d2 i)[j] =
+      (mapWant (flagKey2 i j) (mus (dbasis d1 i).num) (dbasis d2 j).num,
+        (dbasis d1 i).den * (dbasis d2 j).den * intL) := by
+  have hj : j < (dbasisTab d2).length := by simpa [mapWantRow, mapIdx_length] using h
+  simp only [mapWantRow]
+  rw [mapIdx_get _ 0 _ j hj, dbasisTab_get, Nat.zero_add]
+
+theorem funcWantRow_length (d : Nat) : (funcWantRow d).length = NB := by
+  simp [funcWantRow, mapIdx_length]
+
+theorem funcWantRow_get (d i : Nat) (h : i < (funcWantRow d).length) : (funcWantRow d)[i] = funcWant d i := by
+  have hi : i < (List.replicate NB ()).length := by simpa [funcWantRow, mapIdx_length] using h
+  simp only [funcWantRow]
+  rw [mapIdx_get _ 0 _ i hi, Nat.zero_add]
+
+/-- entry `i` of a one-index table -/
+def entry1 (t : List E) (i : Nat) : E := t.getD i (.lit 0 0)
+
+theorem checkRow_entry1 {tn td : Nat} {t : List E} {ws : List (Terms × Nat)} (h : checkRow tn td t ws = true)
+    {i : Nat} (hi : i < ws.length) : checkE tn td (entry1 t i) ws[i].1 ws[i].2 = true := by
+  obtain ⟨hl, hg⟩ := checkRow_get h
+  have hi' : i < t.length := by rw [hl]; exact hi
+  have : entry1 t i = t[i] := by simp [entry1, List.getD, List.getElem?_eq_getElem hi']
+  rw [this]; exact hg i hi' hi
 
 end Compmech.C10
